@@ -295,6 +295,25 @@ class PosInterp:
             return self.call_function(f, args, kwargs)
         if isinstance(f, ClassRef):
             return self.instantiate(f.name, args, kwargs, node)
+        if isinstance(f, _LocalFn):
+            a = f.node.args
+            names = [x.arg for x in [*a.posonlyargs, *a.args]]
+            if a.vararg or a.kwarg or a.kwonlyargs:
+                raise self.err(node, 'call of a local function with star / keyword-only parameters')
+            en = dict(f.env)                          # the enclosing names as they are now
+            en.update(zip(names, args))
+            en.update(kwargs)
+            defaults = dict(zip(names[len(names) - len(a.defaults):], a.defaults))
+            for n_ in names:
+                if n_ not in en or (n_ in f.env and n_ not in kwargs and names.index(n_) >= len(args)):
+                    if n_ not in defaults:
+                        raise Raised(f'TypeError: {f.node.name}() missing argument {n_}')
+                    en[n_] = self.expr(defaults[n_], f.env)
+            try:
+                self.block(stmts_no_doc(f.node.body), en)
+            except _Return as r_:
+                return r_.v
+            return None
         if isinstance(f, _Lambda):
             a = f.node.args
             names = [x.arg for x in [*a.posonlyargs, *a.args]]
@@ -628,6 +647,8 @@ class PosInterp:
                 raise Raised('AssertionError')
         elif isinstance(st, ast.Pass):
             pass
+        elif isinstance(st, ast.FunctionDef) and not st.decorator_list and not any(isinstance(x, (ast.Yield, ast.YieldFrom)) for x in ast.walk(st)):
+            env[st.name] = _LocalFn(st, env)          # a helper defined inside the function: a closure over the enclosing names
         elif isinstance(st, ast.Delete):
             for t in st.targets:
                 if isinstance(t, ast.Name) and t.id in env:
@@ -1191,6 +1212,11 @@ class PosInterp:
                 return self.call_function(f.fn, [f.recv] + args, kwargs)
             return self.call_value(f, args, kwargs, e)
         raise self.err(e, 'expression')
+
+
+class _LocalFn:
+    def __init__(self, node: ast.FunctionDef, env: dict) -> None:
+        self.node, self.env = node, env
 
 
 class _Lambda:
